@@ -28,7 +28,8 @@ func (Driver) Info() core.Info {
 		Title: "collection, set and sequence functions match reference semantics",
 		Rule: "case = (function, wholly known argument list). 27 functions x an equal share of argument lists drawn per function from its parameter constraints " +
 			"(empty and non-empty collections, duplicates, nested nulls, list/tuple and map/object forms, indices/sizes/steps in -(len+2)..(len+2) plus halves, 2^40 and the int64 edges; " +
-			"~9% of lists are pushed out of the domain: top-level null, argument of another type, wrong count) plus a fixed corpus (transcribed table-test rows, boundary cases, defect witnesses). " +
+			"~9% of lists are pushed out of the domain: top-level null, argument of another type, wrong count) plus, in batch 0 of every run, a fixed corpus (rows transcribed by hand from the table tests, " +
+			"boundary cases, defect witnesses; a row with an expectation also calibrates the reference) and seven completely enumerated sub-spaces (see exhaustive_subspaces). " +
 			"Oracle: Call fails exactly where the reference says 'outside the documented domain'; otherwise the result has exactly the reference's type and is model-equal to it; never a Go panic. " +
 			"distinct = hash of (function, %#v of the arguments); non-trivial = the reference is in-domain, so type and value were compared",
 		Assumptions: []string{
@@ -36,6 +37,8 @@ func (Driver) Info() core.Info {
 			"set iteration order is asserted only for primitive element types (the only order cty documents); otherwise results are compared as multisets",
 			"numbers are small integers, dyadic fractions, 2^40 and int64 edges, on which arithmetic is exact (rounding is C02/C14's subject); no marks, no unknowns (C04, C12)",
 			"setsymmetricdifference of more than two sets is the left fold (Appendix A), although one doc comment reads 'in any of the sets but not multiple'",
+			"clauses resting on DESIGN Appendix A alone (no description / table-test row in /repo), counted as clause:*:appendix-only: lookup on objects, compact drops nulls, zipmap last duplicate key wins",
+			"not asserted (counted as oracle:not-asserted): infinite range arguments, dynamically typed null arguments of merge / coalescelist, element types with dynamic parts",
 			"a function.PanicError where the reference also expects an error is only cross-noted for C11",
 		},
 		MinNontrivial: 5000,
@@ -61,7 +64,7 @@ type FnDef struct {
 var Funcs = []FnDef{
 	{"length", stdlib.LengthFunc, refLength, genLength},
 	{"element", stdlib.ElementFunc, refElement, genElement},
-	{"index", stdlib.IndexFunc, refIndex, genHasIndex},
+	{"index", stdlib.IndexFunc, refIndex, genIndex},
 	{"hasindex", stdlib.HasIndexFunc, refHasIndex, genHasIndex},
 	{"lookup", stdlib.LookupFunc, refLookup, genLookup},
 	{"contains", stdlib.ContainsFunc, refContains, genContains},
@@ -98,8 +101,8 @@ func fnByName(name string) *FnDef {
 }
 
 const (
-	perFnQuick    = 2000
-	perFnThorough = 100000
+	perFnQuick    = 6000
+	perFnThorough = 250000
 )
 
 func (Driver) Run(c *core.Ctx) {
@@ -127,6 +130,15 @@ func (Driver) Run(c *core.Ctx) {
 	}
 }
 
+// errText is the error message without the goroutine dump a function.PanicError carries.
+func errText(err error) string {
+	t := err.Error()
+	if i := strings.Index(t, "\ngoroutine "); i >= 0 {
+		t = t[:i]
+	}
+	return t
+}
+
 func fmtArgs(a []cty.Value) string {
 	p := make([]string, len(a))
 	for i, v := range a {
@@ -136,14 +148,14 @@ func fmtArgs(a []cty.Value) string {
 }
 
 const (
-	facetErrWhereOK   = "error where the reference succeeds"
-	facetOKWhereErr   = "success where the reference says outside the documented domain"
-	facetType         = "result type differs from the reference"
-	facetValue        = "result value differs from the reference"
-	facetNotKnown     = "result of wholly known arguments is not wholly known, or is marked"
-	facetRefPanic     = "harness: reference implementation panicked"
-	facetFixture      = "harness: reference disagrees with a transcribed fixture"
-	facetFixtureLib   = "library disagrees with a transcribed table-test fixture"
+	facetErrWhereOK = "error where the reference succeeds"
+	facetOKWhereErr = "success where the reference says outside the documented domain"
+	facetType       = "result type differs from the reference"
+	facetValue      = "result value differs from the reference"
+	facetNotKnown   = "result of wholly known arguments is not wholly known, or is marked"
+	facetRefPanic   = "harness: reference implementation panicked"
+	facetFixture    = "harness: reference disagrees with a transcribed fixture"
+	facetFixtureLib = "library disagrees with a transcribed table-test fixture"
 )
 
 // fixture is an expectation transcribed from the table tests (or written by
@@ -200,11 +212,16 @@ func checkCase(c *core.Ctx, idx int64, fd *FnDef, args []cty.Value, fx *fixture)
 		case !fx.err && !ref.Skip && !(ref.Val.Type().Equals(fx.want.Type()) && sameValue(ref.Val, fx.want, ref.OrderFree)):
 			c.Violate(site, facetFixture, "", witness, fmt.Sprintf("fixture expects %#v, reference gives %#v", fx.want, ref.Val))
 		}
-		switch {
-		case fx.err != (err != nil):
-			c.Violate(site, facetFixtureLib, class, witness, fmt.Sprintf("fixture expects error=%v, library: value %#v error %v", fx.err, got, err))
-		case !fx.err && !(got.Type().Equals(fx.want.Type()) && sameValue(got, fx.want, false)):
-			c.Violate(site, facetFixtureLib, class, witness, fmt.Sprintf("fixture expects %#v, library gives %#v", fx.want, got))
+		// where the reference decides the case, agreement of reference and fixture (just checked) makes the
+		// comparison below cover the fixture as well; the library is held against the fixture directly
+		// only where the reference asserts nothing.
+		if ref.Skip {
+			switch {
+			case fx.err != (err != nil):
+				c.Violate(site, facetFixtureLib, class, witness, fmt.Sprintf("fixture expects error=%v, library: value %#v error %v", fx.err, got, err != nil))
+			case !fx.err && !(got.Type().Equals(fx.want.Type()) && sameValue(got, fx.want, false)):
+				c.Violate(site, facetFixtureLib, class, witness, fmt.Sprintf("fixture expects %#v, library gives %#v", fx.want, got))
+			}
 		}
 	}
 
@@ -212,7 +229,7 @@ func checkCase(c *core.Ctx, idx int64, fd *FnDef, args []cty.Value, fx *fixture)
 	case ref.Skip:
 		c.Count("oracle:not-asserted:" + ref.Why)
 		if isPanicErr {
-			c.CrossNote("C11", site+": function.PanicError: "+core.PanicClass(err.Error()), witness)
+			c.CrossNote("C11", site+": function.PanicError: "+core.PanicClass(errText(err)), witness)
 		}
 		return
 	case ref.Err:
@@ -224,19 +241,26 @@ func checkCase(c *core.Ctx, idx int64, fd *FnDef, args []cty.Value, fx *fixture)
 			return
 		}
 		if isPanicErr {
-			c.CrossNote("C11", site+": function.PanicError: "+core.PanicClass(err.Error()), witness)
+			c.CrossNote("C11", site+": function.PanicError: "+core.PanicClass(errText(err)), witness)
 		}
 		c.Count("outcome:agree-error")
 		return
 	}
 	c.Count("oracle:value-expected")
 	c.Count("domain:" + fd.Name + ":inside")
+	seen := map[string]bool{}
+	for _, cl := range ref.Clauses {
+		if !seen[cl] {
+			seen[cl] = true
+			c.Count("clause:" + fd.Name + ":" + cl)
+		}
+	}
 	if ref.OrderFree {
 		c.Count("oracle:order-free")
 	}
 	if err != nil {
 		c.Count("outcome:disagree")
-		d := fmt.Sprintf("reference result %#v; library error: %v", ref.Val, err)
+		d := fmt.Sprintf("reference result %#v; library error: %s", ref.Val, errText(err))
 		if isPanicErr {
 			d = "function.PanicError; " + d
 		}
